@@ -65,12 +65,25 @@ def rotate_environment(ctx, shard_index: int) -> None:
         warnings.simplefilter("error")
         for cat in (DeprecationWarning, PendingDeprecationWarning, ResourceWarning, ImportWarning):
             warnings.simplefilter("default", cat)
+        # ... but a deprecation raised *by* the library's own modules is an error as well (han.meter_connection excepted: it calls
+        # datetime.utcnow(), which CPython 3.12 deprecates)
+        warnings.filterwarnings("error", category=DeprecationWarning, module=r"han\.(?!meter_connection)")
         ctx.seen("environment", "warnings are errors")
     if __debug__ is False:
         ctx.seen("environment", "python -O (asserts stripped)")
     if sys.flags.bytes_warning >= 2:
         # (only where the unchanged tree is clean under it: han/dlde.py itself compares an int with bytes, so this is used for han/obis.py alone)
         ctx.seen("environment", "python -bb (comparing bytes with str is an error)")
+    if shard_index % 6 == 4:
+        # an application that serves several kinds of meter has imported the other decoders first, in whatever order
+        import importlib
+
+        for name in ("kamstrup", "dlde", "aidon", "kaifa", "autodecoder", "hdlc", "meter_connection"):
+            try:
+                importlib.import_module("han." + name)
+            except Exception:
+                pass
+        ctx.seen("environment", "every library module imported first (kamstrup, dlde, aidon, kaifa, ...)")
     mode = shard_index % 4
     if mode == 1:
         logging.disable(logging.NOTSET)
